@@ -257,7 +257,7 @@ def run(ctx):
         fgrid = [0.03 + (0.9 - 0.03) * j / (nf - 1) for j in range(nf)]
         nd = rng.choice([24, 36])
         dirs = [360.0 * j / nd for j in range(nd)]
-        typ = rng.choice(["u10", "u10", "friction_velocity"])
+        typ = rng.choice(["u10", "u10", "friction_velocity", "ustar"])
         params = {}
         if rng.random() < 0.4:
             params["viscous_stress_parameter"] = C.fx(rng.choice([0.0, 0.1, 1.0]))
